@@ -51,7 +51,7 @@ let parse_cell t =
   | _ -> failwith "cell"
 
 let build_genome ncats rows bi bc cells =
-  List.fold_left (fun g (l, ge) -> set_cell g l ge)
+  List.fold_left (fun g (l, ge) -> put_gene g l ge)
     (empty_genome (nat_of_int rows) (nat_of_int ncats) (parse_locus bi bc)) cells
 
 (* content  bi,bc/r,c=gene/... *)
@@ -119,7 +119,11 @@ let run_mep sec =
         | "X" :: lhs :: b :: k :: r ->
             let (ls, r) = parse_loci (int_of_string k) r in
             if step "X" "-" (MCrossover (!y, lhs = "1", b = "1", ls)) then go r
-        | "C" :: content :: r -> if step "C" "-" (MCse (parse_content ncats rows content)) then go r
+        | "C" :: r ->
+            (* the model computes cse itself (C02's cse_genome with the byte-order comparator) *)
+            (match cse_bits (!x).content with
+             | Some g' -> if step "C" "-" (MCse g') then go r
+             | None -> Buffer.add_string out " ; UB")
         | "L" :: "0" :: r -> if step "L" "ok=0" (MLoad None) then go r
         | "L" :: "1" :: content :: r -> if step "L" "ok=1" (MLoad (Some (parse_content ncats rows content))) then go r
         | "A" :: r -> if step "A" "-" (MAssign !y) then go r
